@@ -57,6 +57,8 @@ theorem FilePerm.slotConst {f f' : File} (h : FilePerm f f') (s : Slot) (v : Con
   cases hs with
   | const h1 => exact .const (h.constants.mem_iff.mp h1)
   | field h1 h2 h3 => exact .field (h.structLikes.mem_iff.mp h1) h2 h3
+  | arg h1 h2 h3 h4 => exact .arg (h.services.mem_iff.mp h1) h2 h3 h4
+  | throw h1 h2 h3 h4 => exact .throw (h.services.mem_iff.mp h1) h2 h3 h4
 
 theorem FilePerm.events {f f' : File} (h : FilePerm f f') (ev : Ev) : ev ∈ f.events → ev ∈ f'.events := by
   intro hm
